@@ -160,6 +160,24 @@ def run(ctx, rep):
               {"market_id": "current_order.market_id", "order_id": "current_order.customer_order_ref[STRATEGY_NAME_HASH_LENGTH + 1:]"},
               "R4", key(pco, None, "updates are routed by (market id, parsed order id)"), pco)
 
+    # the third reader: settled bets are attached to the order whose id the reference carries; the lookup
+    # is by that id alone (an adopted order is rebuilt with the default separator, so its own reference
+    # need not equal the one the exchange returns)
+    pcl = prog.own_method("Blotter", "process_cleared_orders")
+    cfgc = ctx.cfg(pcl)
+    st = [n for n in cfgc.live_nodes() if n.kind == "stmt" and isinstance(n.ast, ast.Assign)
+          and utext(n.ast.targets[0]).endswith(".cleared_order")]
+    good = len(st) == 1
+    why = ""
+    if good:
+        for g, pol in cfgc.guards(st[0].id):
+            for cmp_ in [x for x in ast.walk(g.exprs[0]) if isinstance(x, ast.Compare)]:
+                for operand in [cmp_.left] + list(cmp_.comparators):
+                    full = resolve_local(pcl, operand)
+                    if isinstance(full, ast.Attribute) and full.attr == "customer_order_ref":
+                        good = False
+                        why = "guarded by a comparison of whole references: %s" % utext(g.exprs[0])
+    rep.check(good, "R4", key(pcl, None, "a settled bet is attached by the id parsed from its reference, nothing else"), pcl, None, why)
     # ------------------------------------------------------------------ R5 id independent of the patched clock
     names = {utext(n) for n in ast.walk(ids[0].value)} if ids else set()
     rep.check("uuid.uuid1" in names and not any("datetime" in n or "current_time" in n for n in names), "R5",
@@ -188,6 +206,10 @@ def _eval_charset(node):
 
 _O = "flumine/order/order.py"
 MUTANTS = [
+    dict(id="c19-cleared-needs-whole-reference", file="flumine/markets/blotter.py", func="Blotter.process_cleared_orders",
+         old="            if order_id in self:",
+         new="            if order_id in self and self[order_id].customer_order_ref == cleared_order.customer_order_ref:",
+         expect=["R4"], why="an adopted order (default separator) never gets its settled bet"),
     dict(id="c19-hash-length-one-end", file="flumine/order/process.py", func="create_order_from_current",
          old="    order_id = current_order.customer_order_ref[STRATEGY_NAME_HASH_LENGTH + 1 :]",
          new="    order_id = current_order.customer_order_ref[STRATEGY_NAME_HASH_LENGTH:]", expect=["R1", "R4"],
